@@ -13,7 +13,8 @@ RULE = ("all 8192 identity patterns (A,B,C,D octal digits x X bit, exhaustive) t
         "FS(8) x DR(32) x IIS(16) x IDS(4) product on DF4 and DF5 with random remaining bits (surv.fs/dr/um); CA(8) x all 80 (CL,IC) codes and "
         "overlay values >= 80 on DF11 (allcall.capability/interrogator/icao); every DF 0..31 for the RuntimeError guards. Oracle: the encoded "
         "values. non-trivial = identity other than 0000/7777 patterns plus those explicitly, field value != 0, DF outside the accepted set"
-        ' Also: call history on the same string (helpers first, every call twice), one constant context per carrier, the un-guarded py_common.fs/dr/um copies on short and long replies, more than 2^20 distinct frames in a row in one process (leg volume), the first calls of a freshly imported package made by four threads at once (leg first_use), all-call replies whose PI digits repeat data digits (address solved for over GF(2)), every single-bit CRC syndrome and the generator as corrupt overlays, frames whose AP digits repeat data digits, the decoder first handed damaged forms of the frame.')
+        ' Also: call history on the same string (helpers first, every call twice), one constant context per carrier, the un-guarded py_common.fs/dr/um copies on short and long replies, more than 2^20 distinct frames in a row in one process (leg volume), the first calls of a freshly imported package made by four threads at once (leg first_use), all-call replies whose PI digits repeat data digits (address solved for over GF(2)), every single-bit CRC syndrome and the generator as corrupt overlays, frames whose AP digits repeat data digits, the decoder first handed damaged forms of the frame.'
+        ' Also: every bit behind the fields set / clear, AP / PI field included.')
 ASSUMPTIONS = ["identity interleave C1 A1 C2 A2 C4 A4 X B1 D1 B2 D2 B4 D4 (Annex 10) in ref/gillham.squawk_encode",
                "SI code = 16*(CL-1)+IC for CL 1-4, 'corrupt IC' above 79; description strings are not asserted, only their type",
                "frames are length-consistent: DF<16 -> 14 hex digits, DF>=16 -> 28"]
